@@ -284,14 +284,16 @@ def _limit_memory():
     resource.setrlimit(resource.RLIMIT_AS, (cap, cap))
 
 
-def concrete_playback(crate, unit, hname, env, timeout=900):
+def concrete_playback(crate, unit, hname, env, timeout=420):
     """Ask Kani for concrete values of the failing harness, insert the generated unit test in
     place and run it natively on the real code (`cargo kani playback`)."""
     cex = {'values': None, 'native': None, 'native_output': ''}
     cmd = ['cargo', 'kani', '-Z', 'concrete-playback', '--concrete-playback=inplace'] + unit.flags + ['--harness', hname]
     try:
-        p = subprocess.run(cmd, cwd=crate, capture_output=True, text=True, timeout=timeout, env=env)
+        p = subprocess.run(cmd, cwd=crate, capture_output=True, text=True, timeout=timeout, env=env,
+                           preexec_fn=_limit_memory)
     except subprocess.TimeoutExpired:
+        subprocess.run(['pkill', '-x', 'cbmc'])
         cex['native_output'] = 'timeout generating concrete values'
         return cex
     tests = sorted(set(re.findall(r'- (kani_concrete_playback_\w+)', p.stdout + p.stderr)))
